@@ -400,7 +400,7 @@ func (r *R) rune_() rune {
 }
 
 // strings that look like something else: the spellings of non-string values and of placeholders an implementation might use internally
-var sentinelStrings = []string{"NaN", "+Inf", "-Inf", "Inf", "Infinity", "null", "nil", "<nil>", "true", "false", "undefined", "0", "-0", "1e5", "[]", "{}", "[NaN]", ",NaN", "\"\"", "\\u0000", "\x00", "%s", "%!s(MISSING)"}
+var sentinelStrings = []string{"NaN", "+Inf", "-Inf", "Inf", "Infinity", "null", "nil", "<nil>", "true", "false", "undefined", "0", "-0", "1e5", "[]", "{}", "[NaN]", ",NaN", "\"\"", "\\u0000", "\x00", "%s", "%!s(MISSING)", ",}", ",]", "\",\"", "}", "]", "{\"a\":1}", "[1,2]", ":", "\":", ",", "\\\"", "\"}"}
 
 func (r *R) str() string {
 	if r.chance(0.04) {
